@@ -138,4 +138,20 @@ PROPS = {
         assumptions=["context.WithCancel/AfterFunc/WithoutCancel semantics are modelled: cancellation fires each armed registration once and schedules its "
                      "callback as a new goroutine; stop() atomically disarms", "observation is after quiescence (scheduler fairness for the callback goroutines)"],
     ),
+    "C14": dict(
+        lean_targets=["BB.Props.C14"],
+        theorems=["BB.Props.C14.inv_step", "BB.Props.C14.bounded", "BB.Props.C14.exactly_once", "BB.Props.C14.queue_has_worker",
+                  "BB.Props.C14.finish_own_job", "BB.Props.C14.wait_sound", "BB.Props.C14.queued_not_stuck"],
+        corr=[dict(family="workers", quick=60, thorough=3000, mismatch_is_violation=True, no_shrink=True,
+                   nontrivial=has("target_shrinks_queue_nonempty", "exit_with_queue", "parallel_jobs"),
+                   rule="workers: 2-6 free-running callers x 3-8 calls with mixed/decreasing counts and PRNG-perturbed job functions on one real Workers; "
+                        "events emitted by verif hook points inside the critical sections of Workers.mutex (call/take/exit/wait, with the count and queue length "
+                        "the code computed) and by the job functions form one total order that the Lean transition system must accept step by step (every "
+                        "step enabled, same count/queue length, job started by the worker that took it, result returned only after the job finished, Wait only "
+                        "at count 0); a run that does not terminate is reported; non-trivial = the target shrinks while the queue is non-empty, a worker exits "
+                        "with a non-empty queue, >=2 jobs in parallel")],
+        assumptions=["each critical section of Workers.mutex is one atomic step; job functions terminate",
+                     "liveness (no starvation) is proved as absence of stuck states with queued work (queued_not_stuck) plus the invariant queue != [] -> count >= 1; the leadsTo statement under fairness is not mechanised"],
+        open_statements=["no_starvation as a leadsTo theorem under weak fairness (only the enabledness invariant is proved)"],
+    ),
 }
